@@ -26,7 +26,7 @@ def subst(expr, mapping):
     return _Subst(mapping).visit(copy.deepcopy(expr))
 
 
-def inline_at(cfg, rd, nid, expr, depth=6, stop=()):
+def inline_at(cfg, rd, nid, expr, depth=6, stop=(), unpack_calls=False):
     """Replace every Name in `expr` (evaluated at CFG node nid) whose unique
     reaching definition is a plain `name = rhs` (or a tuple unpacking of a
     tuple literal) by that rhs, recursively."""
@@ -51,12 +51,17 @@ def inline_at(cfg, rd, nid, expr, depth=6, stop=()):
                 for tt, vv in zip(t.elts, dn.ast.value.elts):
                     if isinstance(tt, ast.Name) and tt.id == x.id:
                         rhs = vv
+            elif isinstance(t, ast.Tuple) and all(isinstance(tt, ast.Name) for tt in t.elts) \
+                    and isinstance(dn.ast.value, (ast.Call, ast.Name, ast.Attribute, ast.Subscript)) and unpack_calls:
+                for i, tt in enumerate(t.elts):
+                    if tt.id == x.id:
+                        rhs = ast.Subscript(value=dn.ast.value, slice=ast.Constant(value=i), ctx=ast.Load())
             if rhs is None:
                 continue
             # do not inline self-referential updates (x = f(x)) - keep the name
-            if any(isinstance(y, ast.Name) and y.id == x.id for y in ast.walk(rhs)):
-                continue
-            mapping[x.id] = inline_at(cfg, rd, d, rhs, depth - 1, stop)
+            if any(isinstance(y, ast.Name) and y.id == x.id for y in ast.walk(rhs)) and d in (rd.get(d) or {}).get(x.id, ()):
+                continue  # loop-carried self-update: keep the name
+            mapping[x.id] = inline_at(cfg, rd, d, rhs, depth - 1, stop, unpack_calls)
     if not mapping:
         return expr
     return subst(expr, mapping)
